@@ -588,6 +588,166 @@ def utf16_units(s):
     return "".join(chr(u) for u in out)
 
 
+# ---------------------------------------------------------------- several decisions in ONE process
+# (library use / a test harness: the dimension the one-shot hook never shows).  What a decision appends to the
+# decision log - where, how many lines, with or without the command text - and what it prints must be what the
+# same decision does in a fresh process: nothing may be carried over from the decisions, configurations and
+# failed writes before it (log-full of an earlier config, an earlier destination, a disabled flag, an open handle).
+WORKER18 = os.path.join(os.path.dirname(os.path.abspath(__file__)), "c18_worker.py")
+IP_KINDS = ["none", "a_full", "b_plain", "a_plain", "devfull", "nul", "missing_full", "isdir", "full_only"]
+IP_WATCH = ["a.log", "b.log", os.path.join("m1", "m2", "c.log")]
+IP_CLASSES = ["allow", "ask", "deny", "bypass", "mcp_allow", "mcp_deny", "mcp_none", "mcp_bypass", "not_shell", "bad_json", "post", "raise"]
+IP_DECIDING = ["allow", "ask", "deny", "bypass", "mcp_allow", "mcp_deny", "mcp_bypass"]
+
+
+def ip_spec(kind, logs):
+    """(config lines, model log spec or None, configure fails, write fails)"""
+    return {
+        "none": ([], None, False, False),
+        "a_full": ([f"set log {logs}/a.log", "set log-full"], [f"{logs}/a.log", True], False, False),
+        "b_plain": ([f"set log {logs}/b.log"], [f"{logs}/b.log", False], False, False),
+        "a_plain": ([f"set log {logs}/a.log"], [f"{logs}/a.log", False], False, False),
+        "devfull": (["set log /dev/full", "set log-full"], ["/dev/full", True], False, True),
+        "nul": ([f"set log {logs}/a\0b/x.log"], [f"{logs}/a\0b/x.log", False], True, False),
+        "missing_full": ([f"set log {logs}/m1/m2/c.log", "set log-full"], [f"{logs}/m1/m2/c.log", True], False, False),
+        "isdir": ([f"set log {logs}/adir"], [f"{logs}/adir", False], False, True),
+        "full_only": (["set log-full"], None, False, False),
+    }[kind]
+
+
+def ip_world(root):
+    d = tempfile.mkdtemp(dir=root)
+    home = os.path.join(d, "home")
+    logs = os.path.join(d, "logs")
+    os.makedirs(os.path.join(home, ".claude"))
+    os.makedirs(os.path.join(logs, "adir"))
+    cwds = {}
+    for k in IP_KINDS:
+        c = os.path.join(d, "cwd_" + k)
+        os.makedirs(c)
+        with open(os.path.join(c, ".dippy"), "w") as f:
+            f.write("\n".join(BASE_CFG + ip_spec(k, logs)[0]) + "\n")
+        cwds[k] = c
+    return {"dir": d, "home": home, "logs": logs, "cwds": cwds}
+
+
+def ip_norm(growth):
+    """[[file index, complete?, [line without its timestamp...]]...]"""
+    out = []
+    for i, a, b, text in growth:
+        lines = []
+        for l in text.split("\n")[:-1] if text.endswith("\n") else text.split("\n"):
+            try:
+                j = json.loads(l)
+                j.pop("ts", None)
+                lines.append(json.dumps(j))
+            except ValueError:
+                lines.append("RAW:" + l)
+        out.append([IP_WATCH[i], text.endswith("\n") and b > a, lines])
+    return out
+
+
+def ip_run(root, steps, argv=()):
+    """the steps as main() runs of one process, in a world of their own -> [[stdout, normalised growth]...]"""
+    w = ip_world(root)
+    try:
+        final = [{"k": "main", "stdin": build_input(st["cls"], st["mode"], w["cwds"][st["K"]])} for st in steps]
+        job = {"src": os.path.join(lib.REPO, "src"), "argv": list(argv), "history": [], "final": final, "snapshot": False,
+               "watch": [os.path.join(w["logs"], x) for x in IP_WATCH]}
+        env = {"PATH": "/usr/bin:/bin", "HOME": w["home"], "PYTHONHASHSEED": "0"}
+        p = subprocess.run([PY, WORKER18], input=json.dumps(job).encode(), capture_output=True, env=env, cwd=w["home"], timeout=300)
+        if p.returncode != 0:
+            raise RuntimeError("worker failed: " + p.stderr.decode("utf-8", "replace")[-1500:])
+        r = json.loads(p.stdout.decode())
+        return [[a.replace(w["dir"], "{W}"), ip_norm(g)] for a, g in zip(r["answers"], r["growth"])], w["logs"]
+    finally:
+        shutil.rmtree(w["dir"], ignore_errors=True)
+
+
+def ip_model_queries(st, logs, stdout):
+    spec, cfail, dfail = ip_spec(st["K"], logs)[1:]
+    log = [spec] if spec else []
+    cls = st["cls"]
+    host = st["mode"]
+    if cls == "bad_json":
+        return []
+    det = host if cls in ("allow", "ask", "deny", "bypass", "post", "raise") else "claude"
+    if cls in ("allow", "ask", "deny"):
+        o = parse_stdout(stdout)
+        v = o[0][2] if o and o[0][0] == "env" else "ask"
+        return [["main", det, [], v, "", log, cfail, dfail]]
+    qs = [["setmode", det], ["configure", log, cfail]]
+    if cls in ("bypass", "mcp_allow", "mcp_deny", "mcp_bypass"):
+        qs.append(["log_decision", dfail])
+    return qs
+
+
+def inproc_histories(out, model, root, tier, rng, xcheck, replay=None):
+    quick = tier == "quick"
+    modes = ["claude", "gemini", "cursor"]
+
+    def classes_for(mode):
+        # (a Cursor-shaped input has no tool_input to be malformed: "raise" is a plain allow there)
+        return IP_CLASSES if mode == "claude" else [c for c in IP_CLASSES if c in SHELL_CLASSES or (c == "raise" and mode == "gemini")]
+
+    hists = []
+    if replay is not None:
+        hists = [replay]
+    else:
+        # every ordered pair of log configurations, a deciding class each, and back to the first
+        n = 0
+        for k1 in IP_KINDS:
+            for k2 in IP_KINDS:
+                for rep in range(1 if quick else 3):
+                    m1, m2 = modes[n % 3], modes[(n // 3) % 3]
+                    c1 = [c for c in IP_DECIDING if c in classes_for(m1)][n % len([c for c in IP_DECIDING if c in classes_for(m1)])]
+                    c2 = [c for c in IP_DECIDING if c in classes_for(m2)][(n // 2) % len([c for c in IP_DECIDING if c in classes_for(m2)])]
+                    n += 1
+                    a, b = {"K": k1, "cls": c1, "mode": m1}, {"K": k2, "cls": c2, "mode": m2}
+                    hists.append([a, b, a])
+        for _ in range(40 if quick else 400):
+            h = []
+            for _ in range(rng.randint(2, 10)):
+                m = rng.choice(modes)
+                h.append({"K": rng.choice(IP_KINDS), "cls": rng.choice(classes_for(m)), "mode": m})
+            hists.append(h)
+    keys = {}
+    for h in hists:
+        for st in h:
+            keys.setdefault(json.dumps(st, sort_keys=True), st)
+    with cf.ThreadPoolExecutor(max_workers=12) as ex:
+        fresh = dict(zip(keys, ex.map(lambda st: ip_run(root, [st])[0][0], keys.values())))
+        runs = list(ex.map(lambda h: ip_run(root, h), hists))
+    for h, (res, logs) in zip(hists, runs):
+        out.case("inproc:" + json.dumps(h, sort_keys=True))
+        out.count("inprocess_history_length", str(len(h)) if len(h) <= 3 else "4-10")
+        mq, at = [], []
+        for i, (st, (stdout, growth)) in enumerate(zip(h, res)):
+            out.count("inprocess_step", st["K"] + "/" + ("decides" if st["cls"] in IP_DECIDING else "silent"))
+            f_stdout, f_growth = fresh[json.dumps(st, sort_keys=True)]
+            if stdout != f_stdout or growth != f_growth:
+                what = ("stdout of a decision" if stdout != f_stdout else "what a decision appends to the decision log") + \
+                       " in a process that decided before differs from the same decision in a fresh process"
+                out.violations.append({"kind": "inprocess-history", "what": what, "inproc": h, "step": i, "stdout": stdout, "fresh_stdout": f_stdout,
+                                       "appended": growth, "fresh_appended": f_growth,
+                                       "signature_text": "inproc:" + json.dumps(st, sort_keys=True)})
+            one = ip_model_queries(st, logs, stdout)
+            at.append((len(mq), len(one)))
+            mq += one
+        rec = len(xcheck) < 52 and len(mq) <= 8
+        eff = model.call(["cache_effects", [], mq], record=rec) if mq else []
+        if rec and mq:
+            xcheck.append((model.last_request, [], eff))
+        for st, (stdout, growth), (start, cnt) in zip(h, res, at):
+            want = [e for e in eff[start:start + cnt] if e]
+            shell = st["cls"] in ("allow", "ask", "deny", "bypass")
+            m = [[os.path.relpath(want[0][0], logs), want[0][1] == "1" and shell]] if want else []
+            got = [[f, any('"command"' in l for l in lines)] for f, ok, lines in growth if ok and len(lines) == 1]
+            if m != got or len(got) != len(growth):
+                out.disagreements.append({"correspondence": "Cache.effects <-> lines appended per main() run of one process",
+                                          "history": h, "step": st, "model": m, "impl": growth})
+
+
 def run(tier, seed, replay=None):
     rng = random.Random(seed)
     out = core.Outcome("C15")
@@ -596,7 +756,10 @@ def run(tier, seed, replay=None):
     xcheck = []
     try:
         scenarios = []
-        if replay and replay.get("scenario"):
+        if replay and replay.get("inproc"):
+            inproc_histories(out, model, root, tier, rng, xcheck, replay["inproc"])
+            replay = {"scenario": None, "skip": True}
+        elif replay and replay.get("scenario"):
             scenarios = [replay["scenario"]]
         else:
             quick = tier == "quick"
@@ -678,7 +841,8 @@ def run(tier, seed, replay=None):
                         "declog": (res["declog"] or "")[-200:]})
             check_one(out, model, sc, res, base_res[base_key(sc)], xcheck)
 
-        if not (replay and replay.get("scenario")):
+        if not (replay and (replay.get("scenario") or replay.get("skip"))):
+            inproc_histories(out, model, root, tier, rng, xcheck)
             # JSON writer: model jline == json.dumps, model reader == UTF-16 units, python reads it back
             n_json = 300 if tier == "quick" else 5000
             for e in json_cases(rng, n_json):
